@@ -116,7 +116,8 @@ def run_harness(path, timeout=120, functions=(), replay_note="", only=None, twin
             if call is None:
                 res["inconclusive"].append("%s: counterexample without call text: %s" % (h["name"], detail))
                 continue
-            res["violations"].append(dict(key="%s:%s" % (modname, h["name"]), desc="%s: %s" % (replay_note, detail),
+            # CrossHair's string/regex models can deviate from CPython: a counterexample that does not replay is inconclusive
+            res["violations"].append(dict(key="%s:%s" % (modname, h["name"]), soft=True, desc="%s: %s" % (replay_note, detail),
                                           replay_src=REPLAY % dict(mod=modname, call=call)))
         else:
             res["inconclusive"].append("%s: CrossHair %s %s" % (h["name"], kind, detail or ""))
